@@ -105,13 +105,20 @@ def extract_lib():
     env["CTOR_ASSERTS_OK"] = 1 if (n_pow2 >= n_ctor and n_le >= n_ctor and n_ctor == 2) else 0
     # chunk alignment requested = CHUNK_ALIGN.max(MIN_ALIGN).max(layout.align())
     env["NEW_CHUNK_ALIGN_MAX3"] = 1 if re.search(r"CHUNK_ALIGN\s*\.max\(MIN_ALIGN\)\s*\.max\(requested_layout\.align\(\)\)", src) else 0
+    # every store of a chunk's bump finger goes through ChunkFooter::set_ptr, which skips the shared static
+    stores = re.findall(r"\.ptr\s*\.set\(", src) + re.findall(r"current_ptr\.set\(", src)
+    m = re.search(r"fn\s+set_ptr\s*\(&self[^)]*\)\s*\{(.*?)\n    \}", src, re.S)
+    guarded = bool(m) and len(stores) == 1 and ".ptr.set(" in m.group(1).replace(" ", "") and \
+        re.search(r"if\s+self\.is_empty\(\)\s*\{[^}]*\}\s*else\s*\{[^}]*ptr\.set\(", m.group(1), re.S) is not None
+    env["STATIC_STORE_GUARDED"] = 1 if guarded else 0
     return env
 
 def lean_consts(env):
     lines = ["/-! GENERATED by tools/extract.py from /repo/src/lib.rs — do not edit. -/", "namespace Gen", ""]
     for k in ["TYPICAL_PAGE_SIZE", "SUPPORTED_ITER_ALIGNMENT", "CHUNK_ALIGN", "MALLOC_OVERHEAD",
               "FIRST_ALLOCATION_GOAL", "FOOTER_SIZE", "FOOTER_ALIGN", "OVERHEAD",
-              "DEFAULT_CHUNK_SIZE_WITHOUT_FOOTER", "EMPTY_ALIGN", "CTOR_ASSERTS_OK", "NEW_CHUNK_ALIGN_MAX3"]:
+              "DEFAULT_CHUNK_SIZE_WITHOUT_FOOTER", "EMPTY_ALIGN", "CTOR_ASSERTS_OK", "NEW_CHUNK_ALIGN_MAX3",
+              "STATIC_STORE_GUARDED"]:
         lines.append(f"def {k} : Nat := {env[k]}")
     lines += ["", "end Gen", ""]
     return "\n".join(lines)
